@@ -296,7 +296,7 @@ func c20Run(c *caseCtx) (res caseResult) {
 				}
 			}
 			shape = append(shape, 'M')
-		case x < 8: // unreachable report for a member
+		case x < 8 && x != 8: // unreachable report for a member
 			var cand []string
 			for id := range model {
 				if id != "node" {
@@ -325,6 +325,89 @@ func c20Run(c *caseCtx) (res caseResult) {
 			}
 			what = fmt.Sprintf("unreachable x%d for member %s", reps, id)
 			shape = append(shape, 'U')
+		case x == 8 && step%2 == 0: // a burst of handshakes: every answer is the complete list as of that handshake
+			var absent []*cluster.Member
+			for _, m := range universe {
+				if model[m.ID] == nil {
+					absent = append(absent, incarnate(m))
+				}
+			}
+			if len(absent) < 2 {
+				continue
+			}
+			n0 := probe.count()
+			var expected [][]string
+			for _, m := range absent {
+				model[m.ID] = m
+				expected = append(expected, modelIDs())
+				h.SendWithSender(providerPID, &cluster.Handshake{Member: m.CloneVT()}, probePID)
+			}
+			if !waitFor(wd, func() bool { return probe.count() >= n0+len(absent) }) {
+				res.inconclusive("step %d: %d of %d handshakes of a burst were answered", step, probe.count()-n0, len(absent))
+				return
+			}
+			probe.mu.Lock()
+			got := append([][]string(nil), probe.replies[n0:n0+len(absent)]...)
+			probe.mu.Unlock()
+			what = fmt.Sprintf("burst of %d handshakes", len(absent))
+			for i := range expected {
+				if strings.Join(got[i], ",") != strings.Join(expected[i], ",") {
+					res.violate("step %d (%s): handshake %d of the burst was answered with %v, the complete member list at that point was %v (an answer must not change after it has been given)", step, what, i, got[i], expected[i])
+					break
+				}
+			}
+			interesting++
+			shape = append(shape, 'B')
+		case x == 8: // the same member fails, comes back under the same address, and fails again - nothing else in between
+			var cand []string
+			for id := range model {
+				if id != "node" {
+					cand = append(cand, id)
+				}
+			}
+			if len(cand) == 0 {
+				continue
+			}
+			sort.Strings(cand)
+			m := model[cand[r.Intn(len(cand))]]
+			gone := func() bool {
+				for _, id := range agentIDs() {
+					if id == m.ID {
+						return false
+					}
+				}
+				return true
+			}
+			what = fmt.Sprintf("%s fails, rejoins at %s, fails again", m.ID, m.Host)
+			for round := 0; round < 2; round++ {
+				e.BroadcastEvent(actor.RemoteUnreachableEvent{ListenAddr: m.Host})
+				if !waitFor(wd/3, gone) {
+					// decide on state: what does the provider say
+					ids, ok := handshake(cl.Member())
+					still := false
+					for _, id := range ids {
+						if id == m.ID {
+							still = true
+						}
+					}
+					if ok && still {
+						res.violate("step %d (%s): report %d for the address of member %s did not remove it (the provider still lists %v)", step, what, round+1, m.ID, ids)
+					} else if res.Verdict != vViolated {
+						res.inconclusive("step %d (%s): the agent did not drop the member", step, what)
+					}
+					return
+				}
+				if round == 0 {
+					if _, ok := handshake(m); !ok {
+						res.inconclusive("step %d: no handshake reply", step)
+						return
+					}
+				}
+			}
+			delete(model, m.ID)
+			everRemoved[m.ID] = true
+			interesting++
+			shape = append(shape, 'R')
 		default: // unreachable report for a non-member
 			var host string
 			if r.Intn(2) == 0 {
